@@ -2,11 +2,16 @@
 
 Stages (independent ones run concurrently):
   A  design: TLC exhaustive on the journal-level model (RevertRestores, SiblingsUntouched, AlwaysRevertible)
+  A2 the same with transaction boundaries (Finalize(true) + Prepare) and block boundaries (Commit + reopen)
   B  spec -> code, journal level: every bounded behaviour ending in a revert, replayed on a real state.StateDB
+  B2 the same for behaviours that cross a transaction / block boundary (tombstones, pending objects, reload)
   C  spec -> code, EVM level: every bounded frame program, compiled to bytecode, run by the real vm.EVM;
      a sample of the implementation traces is validated back by spec/JournalTrace.tla
+  C2 the same for several transactions on one StateDB / EVM / block batch (Finalize, Prepare, EVM.Reset between them)
   D  long EVM-level programs from TLC simulation (seeded), replayed + validated the same way
-  E  code -> spec: seeded long random StateDB call sequences, validated by spec/JournalTrace.tla
+  D2 long multi-transaction EVM-level programs from TLC simulation
+  E  code -> spec: seeded long random StateDB call sequences with transaction and block boundaries, validated by
+     spec/JournalTrace.tla
   F  the minimal programs of the known findings with the concrete values observed (evidence only)
 """
 import json, os, subprocess
@@ -23,6 +28,10 @@ ASSUMPTIONS = [
     "the trie, the memory database and TLC are trusted; addresses are fixed in-zone Quai addresses of zone 0-0",
     "EVM level: one contract per frame, operations SSTORE/TSTORE/LOG0/value CALL/ETX/lockup claim/SELFDESTRUCT/CREATE, endings "
     "STOP/REVERT/INVALID/out-of-gas/code-store-out-of-gas; CALLCODE/STATICCALL/CREATE2/CONVERT/UnwrapQi are not generated",
+    "between two transactions the harness does what core/state_processor.go does around applyTransaction (ETX cache handed over, "
+    "StateDB.Finalize(true), UndoCoinbasesDeleted after a failed transaction, StateDB.Prepare, EVM.Reset); gas purchase, nonce bump of the "
+    "sender and fee payment (state_transition.go) are outside this check; a block boundary (journal level only) is StateDB.Commit(true) "
+    "followed by state.New at the committed root on the same state database",
 ]
 
 
@@ -134,13 +143,29 @@ def run(ctx):
             out["tlc_runs"][cfg] = {"distinct": r.distinct, "generated": r.generated, "depth": r.depth, "wall_s": round(r.wall, 1)}
         return out
 
-    # ---- B: journal-level behaviours on the real StateDB
-    def stage_b():
+    # ---- A2: design-level exhaustive check with transaction / block boundaries
+    def stage_a2():
+        out = {"tlc_runs": {}, "states": 0, "transitions": 0}
+        for cfg in (["MCJournal_multitx_small.cfg"] if quick else ["MCJournal_multitx_small.cfg", "MCJournal_multitx_big.cfg"]):
+            r = vlib.tlc_must_pass(ctx, "MCJournal", cfg, workers=6 if quick else 16, timeout=3000 if quick else 10000)
+            vlib.log("A2 TLC %s: %d distinct / %d generated, depth %d, %.0fs" % (cfg, r.distinct, r.generated, r.depth, r.wall))
+            out["states"] += r.distinct
+            out["transitions"] += r.generated
+            out["tlc_runs"][cfg] = {"distinct": r.distinct, "generated": r.generated, "depth": r.depth, "wall_s": round(r.wall, 1)}
+        return out
+
+    # ---- B / B2: journal-level behaviours on the real StateDB
+    def stage_b(multitx=False):
         out = {}
         n_total = 0
         # *nv = same bounds without VIEW: behaviours that differ only in what was reverted earlier stay distinct
-        for cfg, uni in ([("MCJournal_emit.cfg", "j1")] if quick else
-                         [("MCJournal_emit.cfg", "j1"), ("MCJournal_emitnv.cfg", "j1"), ("MCJournal_emit3.cfg", "j2")]):
+        if multitx:
+            cfgs = [("MCJournal_multitx_emit.cfg", "j1")] if quick else [("MCJournal_multitx_emit.cfg", "j1"), ("MCJournal_multitx_emit2.cfg", "j1")]
+        else:
+            cfgs = ([("MCJournal_emit.cfg", "j1")] if quick else
+                    [("MCJournal_emit.cfg", "j1"), ("MCJournal_emitnv.cfg", "j1"), ("MCJournal_emit3.cfg", "j2")])
+        tagb = "B2" if multitx else "B "
+        for cfg, uni in cfgs:
             r = vlib.tlc_must_pass(ctx, "MCJournal", cfg, workers=4 if quick else 8, timeout=3000 if quick else 10000)
             beh = ctx.work / ("beh-%s.ndjson" % cfg[:-4])
             n = write_behaviours(r, beh)
@@ -153,24 +178,31 @@ def run(ctx):
             n_total += n
             out[cfg[:-4]] = {"behaviours": n, "clean": rj["clean"], "steps_compared": rj["steps"], "reverts_judged": rj["reverts_judged"],
                              "ops": rj["ops"], "tlc_states": r.distinct, "tlc_wall_s": round(r.wall, 1)}
-            vlib.log("B  %s: %d behaviours (%d clean), %d steps, %d reverts judged" % (cfg, n, rj["clean"], rj["steps"], rj["reverts_judged"]))
+            vlib.log("%s %s: %d behaviours (%d clean), %d steps, %d reverts judged" % (tagb, cfg, n, rj["clean"], rj["steps"], rj["reverts_judged"]))
             with open(beh) as f:
-                out.setdefault("sample", json.loads(f.readline()))
+                for i, line in enumerate(f):
+                    if i == (n // 2 if multitx else 0):
+                        out.setdefault("sample", json.loads(line))
+                        break
         out["n"] = n_total
         return out
 
     # ---- C: EVM-level behaviours on the real EVM, sample validated back by TLC
-    def stage_c():
+    def stage_c(multitx=False):
         out = {}
         n_total, validated = 0, 0
-        cfgs = ["MCJournal_evm.cfg"] if quick else ["MCJournal_evm.cfg", "MCJournal_evmnv.cfg", "MCJournal_evm32.cfg", "MCJournal_evm3.cfg"]
+        if multitx:
+            cfgs = ["MCJournal_multitx_evm.cfg"] if quick else ["MCJournal_multitx_evm.cfg", "MCJournal_multitx_evm3.cfg"]
+        else:
+            cfgs = ["MCJournal_evm.cfg"] if quick else ["MCJournal_evm.cfg", "MCJournal_evmnv.cfg", "MCJournal_evm32.cfg", "MCJournal_evm3.cfg"]
+        tagc = "C2" if multitx else "C "
         for cfg in cfgs:
             r = vlib.tlc_must_pass(ctx, "MCJournal", cfg, workers=4 if quick else 8, timeout=3000 if quick else 10000)
             beh = ctx.work / ("beh-%s.ndjson" % cfg[:-4])
             n = write_behaviours(r, beh)
             if n < 1000:
                 raise Broken("TLC emitted only %d EVM behaviours (%s)" % (n, cfg))
-            mod = max(1, n // (120 if quick else 400))
+            mod = max(1, n // ((60 if multitx else 120) if quick else 400))
             rj, tr = drv_replay(ctx, drv, "evm", "evm", beh, cfg[:-4], trace_mod=mod)
             if rj["behaviours"] != n:
                 raise Broken("driver replayed %d of %d behaviours" % (rj["behaviours"], n))
@@ -182,8 +214,8 @@ def run(ctx):
             out[cfg[:-4]] = {"behaviours": n, "clean": rj["clean"], "steps_compared": rj["steps"], "frame_failures_judged": rj["reverts_judged"],
                              "ops": rj["ops"], "tlc_states": r.distinct, "traces_validated_by_TLC": ntr, "trace_events": ev,
                              "deviations_seen_by_TLC": nprinted}
-            vlib.log("C  %s: %d programs (%d clean), %d failed frames judged; %d traces / %d events validated by TLC"
-                     % (cfg, n, rj["clean"], rj["reverts_judged"], ntr, ev))
+            vlib.log("%s %s: %d programs (%d clean), %d failed frames judged; %d traces / %d events validated by TLC"
+                     % (tagc, cfg, n, rj["clean"], rj["reverts_judged"], ntr, ev))
             with open(beh) as f:
                 for i, line in enumerate(f):
                     if i == n // 2:
@@ -192,22 +224,24 @@ def run(ctx):
         return out
 
     # ---- D: long EVM-level programs (TLC simulation, seeded)
-    def stage_d():
-        num = 100 if quick else 1500          # per simulation worker
-        r = vlib.tlc(ctx, "MCJournal", "MCJournal_evmsim.cfg", workers=4, timeout=3000, simulate="num=%d" % num, depth=60, seed=ctx.seed)
+    def stage_d(multitx=False):
+        num = (60 if quick else 1000)          # per simulation worker
+        cfg, tag, depth = ("MCJournal_multitx_evmsim.cfg", "evmsim-multitx", 80) if multitx else ("MCJournal_evmsim.cfg", "evmsim", 60)
+        r = vlib.tlc(ctx, "MCJournal", cfg, workers=4, timeout=3000, simulate="num=%d" % num, depth=depth, seed=ctx.seed, tag=tag)
         if not r.ok:
             raise Broken("TLC simulation failed: %s\n%s" % (r.violated, (r.error or r.out[-2000:])))
-        beh = ctx.work / "beh-evmsim.ndjson"
+        beh = ctx.work / ("beh-%s.ndjson" % tag)
         n = write_behaviours(r, beh)
         if n < 50:
             raise Broken("TLC simulation emitted only %d behaviours" % n)
-        mod = max(1, n // (60 if quick else 300))
-        rj, tr = drv_replay(ctx, drv, "evm", "evml", beh, "evmsim", trace_mod=mod)
+        mod = max(1, n // (40 if quick else 300))
+        rj, tr = drv_replay(ctx, drv, "evm", "evml", beh, tag, trace_mod=mod)
         collect(rj)
-        ev, ntr, unx, nprinted = validate_trace(ctx, "JournalTraceEvmL.cfg", tr, "JournalTraceEvmL", rj["deviations"])
+        ev, ntr, unx, nprinted = validate_trace(ctx, "JournalTraceEvmL.cfg", tr, "JournalTraceEvmL-" + tag, rj["deviations"])
         unexplained_to_found(unx, "evm", "evml")
         longest = max((len(json.loads(x)) for x in open(beh)), default=0)
-        vlib.log("D  simulation: %d programs (%d clean, longest %d steps); %d traces / %d events validated by TLC" % (n, rj["clean"], longest, ntr, ev))
+        vlib.log("%s simulation: %d programs (%d clean, longest %d steps, %d transaction boundaries); %d traces / %d events validated by TLC"
+                 % ("D2" if multitx else "D ", n, rj["clean"], longest, rj["ops"].get("txend", 0), ntr, ev))
         return {"n": n, "clean": rj["clean"], "steps_compared": rj["steps"], "frame_failures_judged": rj["reverts_judged"], "longest": longest,
                 "validated": ntr, "trace_events": ev, "ops": rj["ops"]}
 
@@ -223,39 +257,56 @@ def run(ctx):
             found.append((sig_of(f), replay_obj(f)))
         ev, n, unx, nprinted = validate_trace(ctx, "JournalTrace.cfg", tr, "JournalTrace", rj["deviations"])
         unexplained_to_found(unx, "journal", "jt")
-        vlib.log("E  random: %d traces, %d events, %d reverts judged; TLC printed %d deviations" % (n, ev, rj["reverts_judged"], nprinted))
-        return {"traces": n, "events": ev, "reverts_judged": rj["reverts_judged"], "deviations_seen_by_TLC": nprinted}
+        nb = sum(1 for x in open(tr) if '"op":"txend"' in x or '"op":"blockend"' in x)
+        vlib.log("E  random: %d traces, %d events (%d transaction / block boundaries), %d reverts judged; TLC printed %d deviations"
+                 % (n, ev, nb, rj["reverts_judged"], nprinted))
+        return {"traces": n, "events": ev, "boundaries": nb, "reverts_judged": rj["reverts_judged"], "deviations_seen_by_TLC": nprinted}
 
     def stage_f():
         rep = ctx.work / "scenarios.json"
         vlib.run([drv, "scenario", "-out", rep], timeout=600, check=True)
         return json.loads(rep.read_text())
 
-    with ThreadPoolExecutor(max_workers=6) as ex:
-        fut = {k: ex.submit(f) for k, f in (("a", stage_a), ("b", stage_b), ("c", stage_c), ("d", stage_d), ("e", stage_e), ("f", stage_f))}
+    with ThreadPoolExecutor(max_workers=10) as ex:
+        fut = {k: ex.submit(f) for k, f in (("a", stage_a), ("a2", stage_a2), ("b", stage_b), ("b2", lambda: stage_b(True)),
+                                            ("c", stage_c), ("c2", lambda: stage_c(True)), ("d", stage_d), ("d2", lambda: stage_d(True)),
+                                            ("e", stage_e), ("f", stage_f))}
         res = {k: v.result() for k, v in fut.items()}
 
     for sig, obj in found:
         vlib.report(ctx, sig, obj)
 
     a, b, c, d, e = res["a"], res["b"], res["c"], res["d"], res["e"]
+    a2, b2, c2, d2 = res["a2"], res["b2"], res["c2"], res["d2"]
     cov.update(a)
+    cov["states"] += a2["states"]
+    cov["transitions"] += a2["transitions"]
+    cov["tlc_cfg"] = a["tlc_cfg"] + list(a2["tlc_runs"])
+    cov["tlc_runs"].update(a2["tlc_runs"])
     cov.update(
-        journal_behaviours_replayed=b["n"], evm_programs_replayed=c["n"] + d["n"], evm_simulated_programs=d["n"],
-        longest_evm_program_steps=d["longest"],
-        random_traces_validated_by_TLC=e["traces"], random_events=e["events"],
-        evm_traces_validated_by_TLC=c["validated"] + d["validated"],
-        traces_validated_against_impl=b["n"] + c["n"] + d["n"] + e["traces"],
+        journal_behaviours_replayed=b["n"] + b2["n"], evm_programs_replayed=c["n"] + d["n"] + c2["n"] + d2["n"],
+        multi_transaction_journal_behaviours_replayed=b2["n"], multi_transaction_evm_programs_replayed=c2["n"] + d2["n"],
+        evm_simulated_programs=d["n"] + d2["n"],
+        longest_evm_program_steps=max(d["longest"], d2["longest"]),
+        random_traces_validated_by_TLC=e["traces"], random_events=e["events"], random_boundaries=e["boundaries"],
+        evm_traces_validated_by_TLC=c["validated"] + d["validated"] + c2["validated"] + d2["validated"],
+        traces_validated_against_impl=b["n"] + c["n"] + d["n"] + b2["n"] + c2["n"] + d2["n"] + e["traces"],
         detail={"journal": {k: v for k, v in b.items() if k not in ("sample", "n")},
+                "journal_multitx": {k: v for k, v in b2.items() if k not in ("sample", "n")},
                 "evm": {k: v for k, v in c.items() if k not in ("sample", "n", "validated")},
-                "evm_simulation": {k: v for k, v in d.items() if k != "ops"}, "random": e},
+                "evm_multitx": {k: v for k, v in c2.items() if k not in ("sample", "n", "validated")},
+                "evm_simulation": {k: v for k, v in d.items() if k != "ops"},
+                "evm_simulation_multitx": {k: v for k, v in d2.items() if k != "ops"}, "random": e},
         samples=[{"journal_behaviour_from_TLC": b.get("sample")}, {"evm_program_from_TLC": c.get("sample")},
+                 {"multi_transaction_journal_behaviour_from_TLC": b2.get("sample")},
+                 {"multi_transaction_evm_program_from_TLC": c2.get("sample")},
                  {"known_finding_programs_observed_values": res["f"]}],
         exhaustive=True,
         rule="TLC exhaustive on the journal model (%s); every bounded journal behaviour ending in a revert replayed on a real StateDB "
              "and every bounded frame program run by the real EVM with one observation per step, compared with the spec state and, at "
              "every revert / failed frame, with the projection captured before it; seeded TLC-simulated long programs and seeded random "
-             "StateDB call sequences validated by JournalTrace.tla" % ", ".join(a["tlc_cfg"]))
+             "StateDB call sequences validated by JournalTrace.tla; all of it also across transaction boundaries (Finalize(true) + Prepare "
+             "+ EVM.Reset) and, at the StateDB level, block boundaries (Commit + reopen)" % ", ".join(a["tlc_cfg"] + list(a2["tlc_runs"])))
     vlib.write_evidence(ctx, "model_checking", cov, ASSUMPTIONS)
 
 
